@@ -101,6 +101,65 @@ func c07CheckFirst(w *World, r *Report, ef *Effects) {
 					}
 				}
 			}
+			// the pre-flight chosen first and called through a function value:
+			//   find := func(l) { return existingResourceConflict(l, name, ns) }; if take { find = requireAdoption }; find(list)
+			var viaClosure *ssa.MakeClosure // the wrapper through which existingResourceConflict is reached (CHECK-ARGS looks inside)
+			if check == nil {
+				for _, c := range callInstrs(F) {
+					if c.Common().IsInvoke() || c.Common().StaticCallee() != nil || !g.Reachable()[c.Block()] {
+						continue
+					}
+					phi, isPhi := c.Common().Value.(*ssa.Phi)
+					var vals []ssa.Value
+					var preds []*ssa.BasicBlock
+					if isPhi {
+						for i, e := range phi.Edges {
+							vals = append(vals, e)
+							preds = append(preds, phi.Block().Preds[i])
+						}
+					} else {
+						vals = append(vals, c.Common().Value)
+						preds = append(preds, nil)
+					}
+					for i, v := range vals {
+						if preds[i] != nil && (!g.Reachable()[preds[i]] || !g.edgeFeasible(preds[i], phi.Block())) {
+							continue
+						}
+						var target *ssa.Function
+						var mc *ssa.MakeClosure
+						switch x := v.(type) {
+						case *ssa.Function:
+							target = x
+						case *ssa.MakeClosure:
+							mc = x
+							if cf, ok := x.Fn.(*ssa.Function); ok {
+								for _, ic := range callInstrs(cf) {
+									if f, _ := calleeOf(ic.Common()); f != nil && (origin(f) == erc || origin(f) == adopt) {
+										target = f
+									}
+								}
+							}
+						}
+						if target == nil {
+							continue
+						}
+						switch origin(target) {
+						case erc:
+							if take {
+								r.Bad("C07/CHECK-FIRST", mode+"/wrong-arm", w.InstrPos(c), "existingResourceConflict is reachable under TakeOwnership")
+							}
+							check = c
+							viaClosure = mc
+						case adopt:
+							if !take {
+								r.Bad("C07/CHECK-FIRST", mode+"/wrong-arm", w.InstrPos(c), "requireAdoption (no ownership test) is reachable without TakeOwnership")
+							} else {
+								check = c
+							}
+						}
+					}
+				}
+			}
 			if check == nil {
 				r.Bad("C07/CHECK-FIRST", mode+"/no-check", w.Pos(F.Pos()), "no ownership pre-flight call is reachable in "+FuncName(F))
 				continue
@@ -129,7 +188,59 @@ func c07CheckFirst(w *World, r *Report, ef *Effects) {
 				r.Check(after(posOf(c)), "C07/CHECK-FIRST", key, w.InstrPos(c), fmt.Sprintf("%s on %s follows the ownership pre-flight", e, what), fmt.Sprintf("%s on %s (%s) can happen before the ownership pre-flight succeeded: a refused operation would not leave cluster and history unchanged", e, what, describeCall(c.Common())))
 			}
 			// CHECK-ARGS at the call: name/namespace are the new record's fields
-			if !take {
+			if !take && viaClosure != nil {
+				// the name and namespace are handed over inside the wrapper: fields of the captured new record
+				rel := leaf.Common().Args[1]
+				okN, okNS := false, false
+				if cf, ok := viaClosure.Fn.(*ssa.Function); ok {
+					for _, ic := range callInstrs(cf) {
+						if f, _ := calleeOf(ic.Common()); f == nil || origin(f) != erc || len(ic.Common().Args) < 3 {
+							continue
+						}
+						capt := func(v ssa.Value, field string) bool {
+							ld, ok := v.(*ssa.UnOp)
+							if !ok {
+								return false
+							}
+							fa, ok := ld.X.(*ssa.FieldAddr)
+							if !ok || !isFieldOf(fa, relPkg, "Release", field) {
+								return false
+							}
+							base := fa.X
+							if l2, ok := base.(*ssa.UnOp); ok { // captured by reference: *freevar
+								base = l2.X
+							}
+							fv, ok := base.(*ssa.FreeVar)
+							if !ok {
+								return false
+							}
+							for k, x := range cf.FreeVars {
+								if x == fv && k < len(viaClosure.Bindings) {
+									b := viaClosure.Bindings[k]
+									if sameValue(b, rel) {
+										return true
+									}
+									if rl, ok := rel.(*ssa.UnOp); ok && rl.Op == token.MUL && rl.X == b {
+										return true // the record lives in the captured slot itself
+									}
+									// bound slot holding the record
+									if al, ok := b.(*ssa.Alloc); ok && al.Referrers() != nil {
+										for _, rf := range *al.Referrers() {
+											if st, ok := rf.(*ssa.Store); ok && st.Addr == ssa.Value(al) && sameValue(st.Val, rel) {
+												return true
+											}
+										}
+									}
+								}
+							}
+							return false
+						}
+						okN = capt(ic.Common().Args[1], "Name")
+						okNS = capt(ic.Common().Args[2], "Namespace")
+					}
+				}
+				r.Check(okN && okNS, "C07/CHECK-ARGS", mode+"/call", w.InstrPos(check), "the pre-flight receives the new record's Name and Namespace", "the pre-flight is not given the new record's own Name and Namespace")
+			} else if !take {
 				rel := leaf.Common().Args[1]
 				okN := fieldLoadOfValue(check.Common().Args[1], "Name", rel)
 				okNS := fieldLoadOfValue(check.Common().Args[2], "Namespace", rel)
@@ -639,9 +750,6 @@ func c07PatchNeedsOriginal(w *World, r *Report) {
 	}
 	n := 0
 	for _, fn := range withAnon(up) {
-		if fn == up {
-			continue
-		}
 		g := FullGraph(fn)
 		var lookups []ssa.CallInstruction
 		var patches []ssa.CallInstruction
